@@ -303,7 +303,12 @@ meta("C20",
      explanation=("Schedules cannot be explored by sequential contracts; what is decided is the standard sufficient condition. (a) frames: "
                   "every whole-operation obligation shows that a call writes only its output objects and memory it allocated itself "
                   "- read-only inputs (structures, nodes, text, address bytes) are compared before/after, no allocator traffic where "
-                  "none is expected; DFCC assigns-clause checking for the functions under function contracts. (b) [S] the "
+                  "none is expected; DFCC assigns-clause checking for the functions under function contracts. (a') ghost observers "
+                  "(obligations Watch.*): the staged library calls VWATCH() after every expression statement; while uriAddBaseUriExMm, "
+                  "uriRemoveBaseUriMm, uriEqualsUri, uriToString(CharsRequired), uriNormalizeSyntaxMaskRequiredEx, "
+                  "uriComposeQuery(CharsRequired)Ex run, one nondeterministically chosen field / node field / character / address byte of "
+                  "their shared inputs must equal its entry value at every statement boundary - a write that is undone before the "
+                  "call returns fails (a DFCC assigns clause on the whole operation was tried and does not fit into memory). (b) [S] the "
                   "static-lifetime objects of the staged library are exactly the seven constant ones and no instruction assigns "
                   "them by name. From (a) and (b) two calls with disjoint outputs write disjoint locations and neither writes what "
                   "the other reads: no data race, and each result is a function of its inputs only."),
@@ -343,13 +348,19 @@ meta("C02",
                   "helpers on host texts up to 16 characters), IPv6 literals and their 16 bytes against the RFC recogniser (bounded in "
                   "literal length); (c) segment list construction: uriPushPathSegment appends exactly the given range (placeholder for "
                   "empty text), list well formed with the tail being the last node; uriFixEmptyTrailSegment drops exactly the lone "
-                  "empty segment of a host-less relative path. NOT decided in this version: the semantic actions that record scheme / "
-                  "user info / host / port / query / fragment begin and end marks inside the rule functions (they are in the frame of "
-                  "the interface contracts but their values are not yet tied to the table), and lemma L2 (table transducer == RFC "
-                  "decomposition)."),
-     assumptions=["mark assignments (SCHEME/USERINFO/HOST/PORT/QUERY/FRAGMENT BEGIN/END, absolutePath) inside rule functions: not yet under a postcondition",
-                  "lemma L2: not machine-checked", BOUNDED_NOTE],
-     level_text="dispatch contracts (rule positions), IPv4/IPv6 values, host classification, segment list helpers; component marks not yet decided",
+                  "empty segment of a host-less relative path; (d) [unbounded, CBMC/DFCC, obligations Marks.*] the mark actions: "
+                  "for each of the 31 rule functions, on success every one of the 15 recorded marks outside the function's frozen "
+                  "may-change set has its entry value (inductive frame proof over the call graph), and the functions that record a "
+                  "boundary record exactly `first`, `first + 1` or the position a callee returned, per lookahead character: query, "
+                  "fragment, port, scheme end, provisional scheme / user-info start (kept or withdrawn), IPvFuture host, host start "
+                  "behind '[', empty host, user-info end and host start at '@'. The host-end/port-end helpers and the IPv6 scanner, "
+                  "replaced by contracts there, are shown to satisfy those contracts in their own (bounded) obligations. NOT decided: "
+                  "the provisional host-end / port-begin marks set at ':' inside ownHostUserInfoNz / ownPortUserInfo before the "
+                  "uriOnExit* helpers decide them, and lemma L2 (the per-function clauses compose to the RFC decomposition)."),
+     assumptions=["lemma L2 (composition of the per-function mark clauses == RFC 3986 component ranges): not machine-checked",
+                  "provisional host-end / port-begin marks inside ownHostUserInfoNz / ownPortUserInfo: in the may-change frame, values not specified",
+                  "the frozen may-change table is read against the RFC by hand", BOUNDED_NOTE],
+     level_text="dispatch + mark contracts per rule function (unbounded), IPv4/IPv6 values, host classification, helpers (bounded); composition lemma L2 assumed",
      level_note="partial: see evidence.assumptions")
 
 
